@@ -1,0 +1,110 @@
+//! Verification hooks. Compiled only with `--cfg rivia_verif`; add-only, no behaviour change.
+use std::sync::{Arc, RwLock};
+
+use crate::{
+    errors::*,
+    sys::{Entries, Entry, Memfs, VfsEntry},
+};
+
+/// Which kind of guard a lock event is about
+#[derive(Debug, Clone, Copy, PartialEq, Eq)]
+pub enum GuardKind {
+    Read,
+    Write,
+}
+
+/// Lock events reported to the guard hook
+#[derive(Debug, Clone, Copy, PartialEq, Eq)]
+pub enum GuardEvent {
+    BeforeAcquire(GuardKind),
+    Acquired(GuardKind),
+    Released(GuardKind),
+}
+
+type GuardHook = Arc<dyn Fn(GuardEvent) + Send + Sync>;
+
+lazy_static::lazy_static! {
+    static ref GUARD_HOOK: RwLock<Option<GuardHook>> = RwLock::new(None);
+}
+
+/// Install (or clear) the callback invoked around every Memfs lock acquisition and release
+pub fn set_guard_hook(hook: Option<GuardHook>) {
+    *GUARD_HOOK.write().unwrap() = hook;
+}
+
+pub(crate) fn guard_event(ev: GuardEvent) {
+    let hook = GUARD_HOOK.read().unwrap().clone();
+    if let Some(h) = hook {
+        h(ev);
+    }
+}
+
+/// Expose the crate private symbolic/octal mode computation
+pub fn chmod_mode(entry: &VfsEntry, octal: u32, sym: &str) -> RvResult<u32> {
+    crate::sys::mode(entry, octal, sym)
+}
+
+/// Expose the crate private revoking mode predicate
+pub fn revoking_mode(old: u32, new: u32) -> bool {
+    crate::sys::revoking_mode(old, new)
+}
+
+/// Set the internal descriptor cap of a traversal
+pub fn set_max_descriptors(mut entries: Entries, max: u16) -> Entries {
+    entries.max_descriptors = max;
+    entries
+}
+
+fn hex(b: &[u8]) -> String {
+    b.iter().map(|x| format!("{:02x}", x)).collect()
+}
+
+fn hexp(p: &std::path::Path) -> String {
+    use std::os::unix::ffi::OsStrExt;
+    hex(p.as_os_str().as_bytes())
+}
+
+/// Canonical, sorted dump of the complete internal state of a Memfs (one record per line)
+pub fn memfs_dump(vfs: &Memfs) -> String {
+    let guard = match vfs.verif_inner().read() {
+        Ok(g) => g,
+        Err(_) => return "poisoned".to_string(),
+    };
+    let mut out = vec![format!("cwd {}", hexp(&guard.cwd)), format!("root {}", hexp(&guard.root))];
+    let mut keys: Vec<_> = guard.entries.keys().cloned().collect();
+    keys.sort();
+    for k in keys {
+        let e = &guard.entries[&k];
+        let files = match &e.files {
+            Some(f) => {
+                let mut names: Vec<String> = f.iter().map(|x| hex(x.as_bytes())).collect();
+                names.sort();
+                format!("[{}]", names.join(","))
+            },
+            None => "-".to_string(),
+        };
+        out.push(format!(
+            "E {} path={} alt={} rel={} d={} f={} l={} mode={:o} uid={} gid={} follow={} cached={} files={}",
+            hexp(&k),
+            hexp(e.path()),
+            hexp(e.alt()),
+            hexp(e.rel()),
+            e.dir as u8,
+            e.file as u8,
+            e.link as u8,
+            e.mode,
+            e.uid,
+            e.gid,
+            e.follow as u8,
+            e.cached as u8,
+            files
+        ));
+    }
+    let mut fkeys: Vec<_> = guard.files.keys().cloned().collect();
+    fkeys.sort();
+    for k in fkeys {
+        let f = &guard.files[&k];
+        out.push(format!("F {} data={} pos={}", hexp(&k), hex(&f.data), f.pos));
+    }
+    out.join("\n")
+}
